@@ -299,7 +299,11 @@ def machine() -> Dict[str, Any]:
             "other_module_caches": sorted(n for n, d in other.items() if d["cached"])}
 
 
-def search(mc: Dict[str, Any], N: int, L: int, timeout_ms: int) -> Dict[str, Any]:
+def search(mc: Dict[str, Any], N: int, L: int, timeout_ms: int, selective: bool = False) -> Dict[str, Any]:
+    """selective: a cache the source does not clear wholesale is taken to be invalidated entry by
+    entry on a declaration -- everything that mentions a declared unit and every memoised success
+    goes, a memoised failure between two units the declaration does not mention stays (the
+    refinement asked for when the wholesale reading gives a history the real code does not show)."""
     pairs = [(i, j) for i in range(N) for j in range(N) if i != j]
     S = z3.Solver()
     S.set("timeout", timeout_ms)
@@ -328,6 +332,13 @@ def search(mc: Dict[str, Any], N: int, L: int, timeout_ms: int) -> Dict[str, Any
             if k in (i, j):
                 continue
             via.append((z3.And(tbl[t][(i, k)] != 0, tbl[t][(k, j)] != 0), tbl[t][(i, k)] + tbl[t][(k, j)]))
+        if N >= 4:
+            # two intermediate units (what a declaration that mentions neither end point can complete)
+            for k in range(N):
+                for l in range(N):
+                    if len({i, j, k, l}) == 4:
+                        via.append((z3.And(tbl[t][(i, k)] != 0, tbl[t][(k, l)] != 0, tbl[t][(l, j)] != 0),
+                                    tbl[t][(i, k)] + tbl[t][(k, l)] + tbl[t][(l, j)]))
         expr: Any = z3.IntVal(EMPTY)
         for cond, val in reversed(via):
             expr = z3.If(cond, val, expr)
@@ -365,10 +376,16 @@ def search(mc: Dict[str, Any], N: int, L: int, timeout_ms: int) -> Dict[str, Any
             pc_q = z3.If(plan_hit, pc[t][(i, j)], path) if mc["path_cached"] else z3.IntVal(NONE)
             pl_q = z3.If(plan_hit, pl[t][(i, j)], z3.If(path != EMPTY, path, z3.IntVal(NONE))) \
                 if mc["plan_cached"] else z3.IntVal(NONE)
-            pc_d = z3.IntVal(NONE) if mc["path_cleared"]["equate"] else pc[t][(i, j)]
-            pl_d = z3.IntVal(NONE) if mc["plan_cleared"]["equate"] else pl[t][(i, j)]
-            pc_t = z3.IntVal(NONE) if mc["path_cleared"]["translate"] else pc[t][(i, j)]
-            pl_t = z3.IntVal(NONE) if mc["plan_cleared"]["translate"] else pl[t][(i, j)]
+            def kept(cell: Any) -> Any:
+                if not selective:
+                    return cell
+                touched = z3.Or(a[t] == i, a[t] == j, b[t] == i, b[t] == j)
+                return z3.If(z3.Or(touched, cell != EMPTY), z3.IntVal(NONE), cell)
+
+            pc_d = z3.IntVal(NONE) if mc["path_cleared"]["equate"] else kept(pc[t][(i, j)])
+            pl_d = z3.IntVal(NONE) if mc["plan_cleared"]["equate"] else kept(pl[t][(i, j)])
+            pc_t = z3.IntVal(NONE) if mc["path_cleared"]["translate"] else kept(pc[t][(i, j)])
+            pl_t = z3.IntVal(NONE) if mc["plan_cleared"]["translate"] else kept(pl[t][(i, j)])
             S.add(pc[t + 1][(i, j)] == z3.If(decl, pc_d, z3.If(tran, pc_t, z3.If(q, pc_q, pc[t][(i, j)]))))
             S.add(pl[t + 1][(i, j)] == z3.If(decl, pl_d, z3.If(tran, pl_t, z3.If(q, pl_q, pl[t][(i, j)]))))
     # vacuity witness: some history ends with a successful query
@@ -851,10 +868,28 @@ def main(tier: str, selftest_cases: int = 0) -> int:
             kinds = "-".join(op[0][0] for op in r["history"])
             stale = "stale-failure" if r["implemented"] == EMPTY else (
                 "stale-success" if r["specified"] == EMPTY else "stale-value")
-            rep.violation(f"C08:{stale}", f"history {r['history']}: last query answers "
-                          f"{'fails' if r['implemented'] == EMPTY else r['implemented']} but the declarations "
-                          f"alone give {'fails' if r['specified'] == EMPTY else r['specified']}",
-                          replay(r["history"]))
+            verdict = rep.violation(f"C08:{stale}", f"history {r['history']}: last query answers "
+                                    f"{'fails' if r['implemented'] == EMPTY else r['implemented']} but the declarations "
+                                    f"alone give {'fails' if r['specified'] == EMPTY else r['specified']}",
+                                    replay(r["history"]), soft=True)
+            if verdict == "not-reproduced":
+                # the cache is not cleared wholesale, yet the real code does not keep this entry:
+                # it invalidates entry by entry.  Refined model (see search): which entries can survive?
+                r2 = search(mc, 4, 5, 300000, selective=True)
+                rep.merge_stats(queries=2, solver_s=r2["solver_s"])
+                states += r2["state_vars"]
+                transitions += 5
+                name2 = "histories of <= 5 declarations/queries over 4 units, entry-by-entry invalidation"
+                rep.ob("unsat" if r2["result"] == "unsat" else ("unknown" if r2["result"] == "unknown" else "sat"),
+                       name2, (4, 5, "selective"))
+                if r2["result"] == "sat":
+                    st2 = "stale-failure" if r2["implemented"] == EMPTY else (
+                        "stale-success" if r2["specified"] == EMPTY else "stale-value")
+                    rep.violation(f"C08:{st2}:entry-by-entry-invalidation",
+                                  f"history {r2['history']}: last query answers "
+                                  f"{'fails' if r2['implemented'] == EMPTY else r2['implemented']} but the "
+                                  f"declarations alone give {'fails' if r2['specified'] == EMPTY else r2['specified']}",
+                                  replay(r2["history"]))
             break
     if mc["generic_caches"]:
         for (N, L) in bounds:
